@@ -116,14 +116,7 @@ Fixpoint group_matching (c : cls) (n : node) : res node :=
   match n with
   | Leaf _ _ => Ok n
   | Grp c0 v kids =>
-      kids1 <- (fix go (l : list node) : res (list node) :=
-                  match l with
-                  | [] => Ok []
-                  | k :: l' =>
-                      k' <- (if is_group k && negb (is_ws k) && negb (inst k c)
-                             then group_matching c k else Ok k) ;;
-                      r <- go l' ;; Ok (k' :: r)
-                  end) kids ;;
+      kids1 <- mapM (fun k => if is_group k && negb (inst k c) then group_matching c k else Ok k) kids ;;
       kids2 <- matching_loop c kids1 0 kids1 [] 0 ;;
       Ok (Grp c0 v kids2)
   end.
@@ -192,15 +185,9 @@ Fixpoint group_driver (p : gparams) (n : node) : res node :=
   | Leaf _ _ => Ok n
   | Grp c0 v kids =>
       dry <- group_loop p kids 0 (ginit kids) ;;
-      kids1 <- (fix go (l : list node) (flags : list bool) : res (list node) :=
-                  match l with
-                  | [] => Ok []
-                  | k :: l' =>
-                      let f := match flags with b :: _ => b | [] => false end in
-                      k' <- (if f && is_group k && negb (inst k (g_cls p))
-                             then group_driver p k else Ok k) ;;
-                      r <- go l' (tl flags) ;; Ok (k' :: r)
-                  end) kids (rev (g_rec dry)) ;;
+      kids1 <- mapM2 (fun k (f : bool) => if f && is_group k && negb (inst k (g_cls p))
+                                       then group_driver p k else Ok k)
+                     false kids (rev (g_rec dry)) ;;
       fin <- group_loop p kids1 0 (ginit kids1) ;;
       Ok (Grp c0 v (g_live fin))
   end.
@@ -364,14 +351,8 @@ Fixpoint recurse_pass (skip : list cls) (f : cls -> list node -> res (list node)
   match n with
   | Leaf _ _ => Ok n
   | Grp c v kids =>
-      kids1 <- (fix go (l : list node) : res (list node) :=
-                  match l with
-                  | [] => Ok []
-                  | k :: l' =>
-                      k' <- (if is_group k && negb (inst_any k skip)
-                             then recurse_pass skip f k else Ok k) ;;
-                      r <- go l' ;; Ok (k' :: r)
-                  end) kids ;;
+      kids1 <- mapM (fun k => if is_group k && negb (inst_any k skip)
+                              then recurse_pass skip f k else Ok k) kids ;;
       kids2 <- f c kids1 ;;
       Ok (Grp c v kids2)
   end.
